@@ -6,7 +6,7 @@ import TdModel.Lemmas.C27d
 namespace TdModel.C27
 
 theorem hinv_init (m n : Nat) : HInv m (init m n) := by
-  refine ⟨rfl, by simp [init, liveCount], ?_, ?_, ?_, ?_⟩
+  refine ⟨rfl, by simp [init, liveCount, nReserved, List.countP_replicate], ?_, ?_, ?_, ?_⟩
   · intro _; simp [init]
   · intro c
     simp [holders, nCallers, nFree, nInbox, nOrphan, init, List.countP_replicate, heldBy]
@@ -25,7 +25,7 @@ theorem hinv_step {cfg : Cfg} (hg : Good cfg) {m : Nat} {s s' : State} (a : Acti
       split at h
       · rename_i hp
         cases h
-        apply hinv_move hI i x .start hx rfl rfl rfl (fun _ => 0) (fun _ _ _ _ => rfl)
+        apply hinv_move hI i x .start hx rfl rfl rfl rfl (by simp [hp]) (by simp) (fun _ => 0) (fun _ _ _ _ => rfl)
         intro c; simp only [hp, held_none_start, held_none_idle] <;> omega
       · cases h
     · cases h
@@ -38,7 +38,7 @@ theorem hinv_step {cfg : Cfg} (hg : Good cfg) {m : Nat} {s s' : State} (a : Acti
         split at h
         · rename_i d fs hf
           cases h
-          apply hinv_move (t := { s with free := fs }) hI i x (.check d) hx rfl rfl rfl (fun _ => 0) (fun _ _ _ _ => rfl)
+          apply hinv_move (t := { s with free := fs }) hI i x (.check d) hx rfl rfl rfl rfl (by simp [hp]) (by simp) (fun _ => 0) (fun _ _ _ _ => rfl)
           intro c
           have := holders_free_pop s d fs hf c
           simp only [hp, held_none_start, held_check] <;> omega
@@ -46,13 +46,23 @@ theorem hinv_step {cfg : Cfg} (hg : Good cfg) {m : Nat} {s s' : State} (a : Acti
           split at h
           · rename_i hlim
             cases h
-            exact hinv_create hI i x hx hp hlim _ _ ⟨rfl, rfl⟩ rfl rfl rfl rfl rfl rfl
+            exact hinv_reserve hI i x hx hp hlim
           · cases h
-            apply hinv_move (t := { s with reqs := s.reqs ++ [s.nextKey], nextKey := s.nextKey + 1 }) hI i x _ hx rfl rfl rfl (fun _ => 0) (fun _ _ _ _ => rfl)
+            apply hinv_move (t := { s with reqs := s.reqs ++ [s.nextKey], nextKey := s.nextKey + 1 }) hI i x _ hx rfl rfl rfl rfl (by simp [hp]) (by simp) (fun _ => 0) (fun _ _ _ _ => rfl)
             intro c
             have := holders_reqs s (s.reqs ++ [s.nextKey]) (s.nextKey + 1) c
             simp only [hp, held_none_start, held_none_waiting]
             omega
+      · cases h
+    · cases h
+  | mk i =>
+    simp only [step] at h
+    split at h
+    · rename_i x hx
+      split at h
+      · rename_i hp
+        cases h
+        exact hinv_create hI i x hx hp _ _ ⟨rfl, rfl⟩ rfl rfl rfl rfl rfl rfl
       · cases h
     · cases h
   | check i =>
@@ -64,7 +74,7 @@ theorem hinv_step {cfg : Cfg} (hg : Good cfg) {m : Nat} {s s' : State} (a : Acti
         split at h
         · rename_i hd
           cases h
-          apply hinv_move hI i x .start hx rfl rfl rfl (fun c => if d = c then 1 else 0)
+          apply hinv_move hI i x .start hx rfl rfl rfl rfl (by simp [hp]) (by simp) (fun c => if d = c then 1 else 0)
           · intro c cn hcn hdd
             by_cases hdc : d = c
             · subst hdc
@@ -73,7 +83,7 @@ theorem hinv_step {cfg : Cfg} (hg : Good cfg) {m : Nat} {s s' : State} (a : Acti
             · simp [hdc]
           · intro c; simp only [hp, held_none_start, held_check] <;> omega
         · cases h
-          apply hinv_move hI i x (.using d) hx rfl rfl rfl (fun _ => 0) (fun _ _ _ _ => rfl)
+          apply hinv_move hI i x (.using d) hx rfl rfl rfl rfl (by simp [hp]) (by simp) (fun _ => 0) (fun _ _ _ _ => rfl)
           intro c; simp only [hp, held_using, held_check] <;> omega
       · cases h
     · cases h
@@ -90,7 +100,7 @@ theorem hinv_step {cfg : Cfg} (hg : Good cfg) {m : Nat} {s s' : State} (a : Acti
             simp only at h
             split at h
             · cases h
-              apply hinv_handOut hg1 hI i x d hx rfl rfl rfl
+              apply hinv_handOut hg1 hI i x d hx rfl rfl rfl rfl (by simp [hp])
               intro c; simp only [hp, held_creating] <;> omega
             · cases h
           | dead =>
@@ -98,7 +108,7 @@ theorem hinv_step {cfg : Cfg} (hg : Good cfg) {m : Nat} {s s' : State} (a : Acti
             split at h
             · rename_i hd
               cases h
-              apply hinv_move hI i x .start hx rfl rfl rfl (fun c => if d = c then 1 else 0)
+              apply hinv_move hI i x .start hx rfl rfl rfl rfl (by simp [hp]) (by simp) (fun c => if d = c then 1 else 0)
               · intro c cn' hcn' hdd
                 by_cases hdc : d = c
                 · subst hdc
@@ -122,7 +132,7 @@ theorem hinv_step {cfg : Cfg} (hg : Good cfg) {m : Nat} {s s' : State} (a : Acti
                   have := hI.one d
                   simp only [holders] at this
                   omega
-              apply hinv_move (t := { s with conns := s.conns.set d { cn with orphan := true } }) hI i x .done hx rfl rfl (map_dead_set hcn rfl) (fun _ => 0) (fun _ _ _ _ => rfl)
+              apply hinv_move (t := { s with conns := s.conns.set d { cn with orphan := true } }) hI i x .done hx rfl rfl (map_dead_set hcn rfl) rfl (by simp [hp]) (by simp) (fun _ => 0) (fun _ _ _ _ => rfl)
               intro c
               have := holders_conn_set s d cn { cn with orphan := true } hcn c
               simp only [hp, held_none_done, held_creating]
@@ -144,7 +154,7 @@ theorem hinv_step {cfg : Cfg} (hg : Good cfg) {m : Nat} {s s' : State} (a : Acti
           split at h
           · rename_i d rest htk
             cases h
-            apply hinv_handOut (t := { s with inbox := rest }) hg1 hI i x d hx rfl rfl rfl
+            apply hinv_handOut (t := { s with inbox := rest }) hg1 hI i x d hx rfl rfl rfl rfl (by simp [hp])
             intro c
             have := holders_inbox_take s k d rest htk c
             simp only [hp, held_none_waiting]
@@ -154,14 +164,14 @@ theorem hinv_step {cfg : Cfg} (hg : Good cfg) {m : Nat} {s s' : State} (a : Acti
           simp only at h
           split at h
           · cases h
-            apply hinv_move hI i x _ hx rfl rfl rfl (fun _ => 0) (fun _ _ _ _ => rfl)
+            apply hinv_move hI i x _ hx rfl rfl rfl rfl (by simp [hp]) (by simp) (fun _ => 0) (fun _ _ _ _ => rfl)
             intro c; simp only [hp, held_none_waiting, held_none_giveup] <;> omega
           · cases h
         | ctx =>
           simp only at h
           split at h
           · cases h
-            apply hinv_move hI i x _ hx rfl rfl rfl (fun _ => 0) (fun _ _ _ _ => rfl)
+            apply hinv_move hI i x _ hx rfl rfl rfl rfl (by simp [hp]) (by simp) (fun _ => 0) (fun _ _ _ _ => rfl)
             intro c; simp only [hp, held_none_waiting, held_none_giveup] <;> omega
           · cases h
       · cases h
@@ -176,7 +186,7 @@ theorem hinv_step {cfg : Cfg} (hg : Good cfg) {m : Nat} {s s' : State} (a : Acti
         · -- nothing in the channel
           split at h
           · cases h
-            apply hinv_move (t := { s with reqs := s.reqs.erase k }) hI i x _ hx rfl rfl rfl (fun _ => 0) (fun _ _ _ _ => rfl)
+            apply hinv_move (t := { s with reqs := s.reqs.erase k }) hI i x _ hx rfl rfl rfl rfl (by simp [hp]) (by cases w <;> simp) (fun _ => 0) (fun _ _ _ _ => rfl)
             intro c
             have := holders_reqs' s (s.reqs.erase k) c
             cases w <;> simp only [hp, held_none_start, held_none_done, held_none_giveup] <;> omega
@@ -188,7 +198,7 @@ theorem hinv_step {cfg : Cfg} (hg : Good cfg) {m : Nat} {s s' : State} (a : Acti
             simp only at h
             split at h
             · cases h
-              apply hinv_handOut (t := { s with reqs := s.reqs.erase k, inbox := rest }) hg1 hI i x d hx rfl rfl rfl
+              apply hinv_handOut (t := { s with reqs := s.reqs.erase k, inbox := rest }) hg1 hI i x d hx rfl rfl rfl rfl (by simp [hp])
               intro c
               have := holders_inbox_take s k d rest htk' c
               simp only [hp, held_none_giveup]
@@ -200,7 +210,7 @@ theorem hinv_step {cfg : Cfg} (hg : Good cfg) {m : Nat} {s s' : State} (a : Acti
             · rename_i s3 hrel
               cases h
               obtain ⟨hh3, hm3, ht3, hc3, hcal3, _⟩ := release_spec hrel
-              apply hinv_move hI i x .done (by rw [hcal3]; exact hx) hm3 ht3 (by rw [hc3]) (fun _ => 0)
+              apply hinv_move hI i x .done (by rw [hcal3]; exact hx) hm3 ht3 (by rw [hc3]) (by simp only [nReserved, hcal3]) (by simp [hp]) (by simp) (fun _ => 0)
                 (fun _ _ _ _ => rfl)
               intro c
               have e1 := hh3 c
@@ -238,7 +248,7 @@ theorem hinv_step {cfg : Cfg} (hg : Good cfg) {m : Nat} {s s' : State} (a : Acti
             obtain ⟨cn, hcn⟩ := hex
             obtain ⟨y, hy, hyd⟩ := markDead_conn s d cn hcn
             have hI1 := hinv_markDead hI d
-            apply hinv_move hI1 i x .start (by rw [markDead_callers]; exact hx) rfl rfl rfl
+            apply hinv_move hI1 i x .start (by rw [markDead_callers]; exact hx) rfl rfl rfl rfl (by simp [hp]) (by simp)
               (fun c => if d = c then 1 else 0)
             · intro c cn' hcn' hdd
               by_cases hdc : d = c
@@ -252,7 +262,7 @@ theorem hinv_step {cfg : Cfg} (hg : Good cfg) {m : Nat} {s s' : State} (a : Acti
           · rename_i s1 hrel
             cases h
             obtain ⟨hh1, hm1, ht1, hc1, hcal1, _⟩ := release_spec hrel
-            apply hinv_move hI i x .done (by rw [hcal1]; exact hx) hm1 ht1 (by rw [hc1]) (fun _ => 0)
+            apply hinv_move hI i x .done (by rw [hcal1]; exact hx) hm1 ht1 (by rw [hc1]) (by simp only [nReserved, hcal1]) (by simp [hp]) (by simp) (fun _ => 0)
               (fun _ _ _ _ => rfl)
             intro c
             have := hh1 c
@@ -271,7 +281,7 @@ theorem hinv_step {cfg : Cfg} (hg : Good cfg) {m : Nat} {s s' : State} (a : Acti
         have := holders_conn_set s d cn { cn with ready := true } hcn c
         simp only at this
         omega
-      apply hinv_of_le (s' := { s with conns := s.conns.set d { cn with ready := true } }) hI rfl rfl (map_dead_set hcn rfl)
+      apply hinv_of_le (s' := { s with conns := s.conns.set d { cn with ready := true } }) hI rfl rfl (map_dead_set hcn rfl) rfl
       · intro c; rw [hh c]; exact Nat.le_refl _
       · intro c _ _ _; exact hh c
     · cases h
@@ -285,6 +295,11 @@ theorem hinv_step {cfg : Cfg} (hg : Good cfg) {m : Nat} {s s' : State} (a : Acti
     split at h
     · rename_i x hx
       cases h
+      have hresc : nReserved { s with callers := s.callers.set i { x with cancelled := true } } = nReserved s := by
+        have := countP_set_of (fun z : Caller => z.pc == .reserved) s.callers i x { x with cancelled := true } hx
+        simp only [nReserved]
+        simp only at this
+        omega
       have hh : ∀ c, holders { s with callers := s.callers.set i { x with cancelled := true } } c = holders s c := by
         intro c
         have := nCallers_set s i x { x with cancelled := true } hx c
@@ -294,7 +309,7 @@ theorem hinv_step {cfg : Cfg} (hg : Good cfg) {m : Nat} {s s' : State} (a : Acti
         rw [e]
         simp only at this
         omega
-      apply hinv_of_le (s' := { s with callers := s.callers.set i { x with cancelled := true } }) hI rfl rfl rfl
+      apply hinv_of_le (s' := { s with callers := s.callers.set i { x with cancelled := true } }) hI rfl rfl rfl hresc
       · intro c; rw [hh c]; exact Nat.le_refl _
       · intro c _ _ _; exact hh c
     · cases h
@@ -314,13 +329,13 @@ theorem hinv_step {cfg : Cfg} (hg : Good cfg) {m : Nat} {s s' : State} (a : Acti
         | true =>
           simp only [if_true] at h
           split at h
-          · obtain ⟨hh2, hm2, ht2, hc2, _, _⟩ := release_spec h
+          · obtain ⟨hh2, hm2, ht2, hc2, hcal2, _⟩ := release_spec h
             have hh : ∀ c, holders s' c = holders s c := by
               intro c
               have := hh2 c
               have := e1 c
               omega
-            apply hinv_of_le hI hm2 ht2 (by rw [hc2]; exact map_dead_set hcn rfl)
+            apply hinv_of_le hI hm2 ht2 (by rw [hc2]; exact map_dead_set hcn rfl) (by simp only [nReserved, hcal2])
             · intro c; rw [hh c]; exact Nat.le_refl _
             · intro c _ _ _; exact hh c
           · cases h
@@ -329,7 +344,7 @@ theorem hinv_step {cfg : Cfg} (hg : Good cfg) {m : Nat} {s s' : State} (a : Acti
           split at h
           · rename_i hd
             cases h
-            apply hinv_of_le (s' := { s with conns := s.conns.set d { cn with orphan := false } }) hI rfl rfl (map_dead_set hcn rfl)
+            apply hinv_of_le (s' := { s with conns := s.conns.set d { cn with orphan := false } }) hI rfl rfl (map_dead_set hcn rfl) rfl
             · intro c; have := e1 c; omega
             · intro c cn' hcn' hdd
               have := e1 c
